@@ -196,7 +196,9 @@ func (g *adaptive) freshDict() []psref.Tok {
 	n := g.draw(4, "dictn")
 	toks := []psref.Tok{psref.TX("<<")}
 	for i := 0; i < n; i++ {
-		toks = append(toks, psref.TL(g.genName()), g.genSimple())
+		// keys incl. decimal names (only ever written as literal names)
+		key := []string{"a", "b", "c", "k1", "Foo", "0", "1", "2", "10"}[g.draw(9, "dictkey")]
+		toks = append(toks, psref.TL(key), g.genSimple())
 	}
 	return append(toks, psref.TX(">>"))
 }
@@ -341,10 +343,15 @@ func (g *adaptive) step() bool {
 			if _, ok := g.bring(isDict, g.freshDict); !ok {
 				return false
 			}
-			if g.draw(2, "samedict") == 0 {
+			switch g.draw(3, "samedict") {
+			case 0:
 				return g.emit(psref.TX("dup"), psref.TX(op))
+			case 1:
+				return g.emit(psref.TI(0), psref.TX("dict"), psref.TX(op))
 			}
-			return g.emit(psref.TI(0), psref.TX("dict"), psref.TX(op))
+			// a distinct dictionary that may have the same length
+			g.feat["dict-vs-dict"] = true
+			return g.emit(append(g.freshDict(), psref.TX(op))...)
 		}
 	case 11, 12: // read from a composite
 		o, ok := g.bring(isComp, g.freshComp)
